@@ -1010,11 +1010,14 @@ class Engine:
         s = self.solver
         s.push()
         s.add(extra.z3(self) if isinstance(extra, SymBool) else extra)
-        if self.query_log is not None and len(self.query_log) < 40 and \
-                self.stats["queries"] % 97 == 0:
-            self.query_log.append(s.to_smt2())
+        log = None
+        if self.query_log is not None and len(self.query_log) < 6 and \
+                self.stats["queries"] % 193 == 7:
+            log = s.to_smt2()
         t0 = time.time()
         r = s.check()
+        if log is not None and r in (z3.sat, z3.unsat):
+            self.query_log.append((log, str(r)))
         self.stats["solver_s"] += time.time() - t0
         self.stats["queries"] += 1
         m = None
